@@ -123,3 +123,36 @@ Proof. unfold gen_ravel_multipliers. now rewrite gen_ravel_fold. Qed.
 Theorem ravel_is_rowmajor idx lens :
   length idx = length lens -> dotN idx (gen_ravel_multipliers lens) = ravel idx lens.
 Proof. intros H. rewrite gen_ravel_multipliers_ok. now apply dot_multipliers. Qed.
+
+(* ---- get_at reads back what set_at wrote ---- *)
+(* get_at with the same plan: the update position [snd pq] receives the target element [fst pq] *)
+Definition read_back (t : list Z) (plan : list (N * N)) : list (N * Z) :=
+  map (fun pq => (snd pq, nth (N.to_nat (fst pq)) t 0)) plan.
+
+Lemma candidates_unique plan u pq :
+  NoDup (map (fun pq => N.to_nat (fst pq)) plan) -> In pq plan ->
+  candidates plan u (N.to_nat (fst pq)) = [getZ u (snd pq)].
+Proof.
+  induction plan as [|a l IH]; intros Hnd Hin; [contradiction|]. cbn [map] in Hnd. inversion Hnd as [|? ? Ha Hl]; subst.
+  rewrite candidates_cons. destruct Hin as [->|Hin].
+  - rewrite Nat.eqb_refl. f_equal. unfold candidates.
+    assert (E : filter (fun pq0 => Nat.eqb (N.to_nat (fst pq0)) (N.to_nat (fst pq))) l = []).
+    { clear IH Hl Hnd. revert Ha. induction l as [|b r IHr]; intros Ha; [reflexivity|]. cbn [filter].
+      destruct (Nat.eqb (N.to_nat (fst b)) (N.to_nat (fst pq))) eqn:E.
+      - exfalso. apply Ha. apply Nat.eqb_eq in E. rewrite <- E. cbn [map]. now left.
+      - apply IHr. intros H. apply Ha. cbn [map]. now right. }
+    now rewrite E.
+  - destruct (Nat.eqb (N.to_nat (fst a)) (N.to_nat (fst pq))) eqn:E; [|now apply IH].
+    exfalso. apply Ha. apply Nat.eqb_eq in E. rewrite E. apply in_map_iff. exists pq. split; [reflexivity|exact Hin].
+Qed.
+
+Theorem set_then_get_reads_back t u plan :
+  (forall pq, In pq plan -> (N.to_nat (fst pq) < length t)%nat) ->
+  NoDup (map (fun pq => N.to_nat (fst pq)) plan) ->
+  read_back (apply_set t plan u) plan = map (fun pq => (snd pq, getZ u (snd pq))) plan.
+Proof.
+  intros Hb Hnd. unfold read_back. apply map_ext_in. intros pq Hin. f_equal.
+  destruct (apply_set_member t u plan (N.to_nat (fst pq)) Hb) as [[Hnil _]|Hmem].
+  - rewrite (candidates_unique plan u pq Hnd Hin) in Hnil. discriminate.
+  - rewrite (candidates_unique plan u pq Hnd Hin) in Hmem. destruct Hmem as [E|[]]. now symmetry.
+Qed.
